@@ -283,7 +283,9 @@ C01_TOLERANCES = {
     "u (ulp allowance per primitive, in units of eps * sum|terms of the chain rule|)": U,
     "local check, primitive operation": "|observed - reference| <= u * eps * sum|terms| per slot, operands = recorded jets (exact)",
     "local check, composite operation": "4 x bound tracked through the canonical stable decomposition (u = 16 per primitive of the decomposition)",
-    "global check": "4 x bound tracked from the inputs through every statement; slots with bound > %s (Real64) / %s (Real32) of |slot| are "
+    "composite operations, norm-wise floor": "a gradient / Hessian entry of a composite operation may additionally deviate by 16 * eps * (largest entry of "
+                                             "that tensor): intermediates of that size are rounded; entries outside the structural support stay exact",
+    "global check": "4 x bound tracked from the inputs through every statement; same norm-wise floor; slots with bound > %s (Real64) / %s (Real32) of |slot| are "
                     "ill-conditioned: skipped and counted" % (ILL["Real64"], ILL["Real32"]),
     "exact": "slots outside the structural support, Hessian symmetry, accessors and Matrix.Jacobian/Hessian: bit-equal",
 }
@@ -639,6 +641,75 @@ def apply_op(T_, op, args, args2, par, k, shape):
     raise KeyError(op)
 
 
+def in_domain_table(op, xs, par, k):
+    """C01 domain table (mirror of harness/c01/model.go:admissible): random programs are judged only at statements whose
+    recorded operand values lie inside it (a wrong value upstream can push a later statement outside)."""
+    for v in xs:
+        if v != v or v in (float("inf"), float("-inf")) or abs(v) > 1e6:
+            return False
+    a = xs[0]
+    frac = lambda v: abs(v - round(v))
+    if op in ("Neg", "Abs", "Add", "Sub", "Mul", "Min", "Max"):
+        return True
+    if op == "Div":
+        return abs(xs[1]) > 1e-3
+    if op in ("Sqrt", "Log"):
+        return a > 1e-3
+    if op == "Log1p":
+        return a > -0.99
+    if op == "Exp":
+        return abs(a) < 20
+    if op in ("Sinh", "Cosh"):
+        return abs(a) < 15
+    if op in ("Sin", "Cos"):
+        return abs(a) < 50
+    if op == "Tan":
+        return abs(a) < 50 and abs(math.cos(a)) > 0.05
+    if op == "Tanh":
+        return abs(a) < 30
+    if op in ("Log1pExp", "Logistic", "Sigmoid"):
+        return abs(a) < 40
+    if op in ("Erf", "Erfc"):
+        return abs(a) < 5
+    if op == "LogErfc":
+        return -4 < a < 25
+    if op == "Gamma":
+        return (0.1 < a < 20) or (-6 < a < 0 and frac(a) > 0.05)
+    if op == "Lgamma":
+        return (0.1 < a < 100) or (-6 < a < 0 and frac(a) > 0.05)
+    if op == "Mlgamma":
+        return (k - 1) / 2.0 + 0.1 < a < 100
+    if op == "GammaP":
+        return 0.01 < a < 50
+    if op in ("BesselI", "LogBesselI"):
+        return 0.05 < a < 30
+    if op == "Pow":
+        y = xs[1]
+        return a > 1e-3 and abs(y) <= 4 and abs(y * math.log(a)) < 30
+    if op == "LogAdd":
+        return abs(a) < 50 and abs(xs[1]) < 50
+    if op == "LogSub":
+        return abs(a) < 50 and abs(xs[1]) < 50 and a > xs[1] + 1e-3
+    if op == "SmoothMax":
+        return all(abs(par * v) < 30 and abs(v) < 1e3 for v in xs)
+    if op == "LogSmoothMax":
+        return all(0.01 < v < 30 and abs(par * v) < 30 for v in xs)
+    if op in ("Vnorm", "Mnorm"):
+        return all(abs(v) < 1e4 for v in xs) and math.sqrt(sum(v * v for v in xs)) >= 1e-3
+    return all(abs(v) < 1e4 for v in xs)
+
+
+DOMAIN_TABLE = {
+    "Neg Abs Add Sub Mul Min Max": "|x| <= 1e6", "Div": "|y| > 1e-3", "Sqrt Log": "x > 1e-3", "Log1p": "x > -0.99", "Exp": "|x| < 20",
+    "Sinh Cosh": "|x| < 15", "Sin Cos": "|x| < 50", "Tan": "|x| < 50, |cos x| > 0.05", "Tanh": "|x| < 30", "Log1pExp Logistic Sigmoid": "|x| < 40",
+    "Erf Erfc": "|x| < 5", "LogErfc": "-4 < x < 25", "Gamma": "0.1 < x < 20 or -6 < x < 0 with distance > 0.05 from the poles",
+    "Lgamma": "0.1 < x < 100 or -6 < x < 0 (off the poles)", "Mlgamma": "(k-1)/2 + 0.1 < x < 100, k = 1..4", "GammaP": "0.01 < x < 50, a in {0.3,0.5,1,2.5,4,7.25,12}",
+    "BesselI LogBesselI": "0.05 < x < 30, v in {0,0.5,1,1.5,2,3.25}", "Pow": "x > 1e-3, |y| <= 4, |y log x| < 30 (negative base / base 0 with constant exponent: directed list)",
+    "LogAdd LogSub": "|a|,|b| < 50, LogSub: a > b + 1e-3", "SmoothMax": "|alpha x_i| < 30", "LogSmoothMax": "0.01 < x_i < 30, |alpha x_i| < 30",
+    "Vnorm Mnorm": "norm >= 1e-3", "directed list": "branch boundaries and special operands outside these margins (Log1pExp thresholds +-1 ulp, Sigmoid/Abs at +-0, ties, -Inf in LogAdd/LogSub, Pow at base 0 / negative base, Tanh and LogErfc at large x)",
+}
+
+
 def hexf(s):
     return float.fromhex(s)
 
@@ -680,10 +751,17 @@ def isfinite(x):
     return mp.isfinite(x)
 
 
-def compare(obs, exp, factor, support, ill=None):
+def compare(obs, exp, factor, support, ill=None, floor_eps=None):
     """-> list of (kind, i, j, observed, expected, err, tol), number judged, number skipped"""
     bad, judged, skipped = [], 0, 0
     worst = 0.0
+    fl = {"value": ZERO, "grad": ZERO, "hess": ZERO}
+    if floor_eps is not None:
+        # sequences of primitives round intermediates of the size of the largest entry of a derivative tensor
+        for (kind, i, j), ev in exp.items():
+            if kind != "value" and ev[0] != "nan" and mp.isfinite(ev[0]):
+                fl[kind] = max(fl[kind], abs(ev[0]))
+        fl = {k: 16 * floor_eps * v for k, v in fl.items()}
     for key, ob in obs.items():
         kind, i, j = key
         ev = exp.get(key)
@@ -715,6 +793,8 @@ def compare(obs, exp, factor, support, ill=None):
             continue
         d = abs(mpf(ob) - val)
         tol = factor * err
+        if k2 != "zero" and tol < fl[kind]:
+            tol = fl[kind]
         if d > tol:
             bad.append((k2, i, j, ob, val, d, tol))
         elif tol > 0:
@@ -834,6 +914,17 @@ def judge_program(ev, out):
         obs = slot_items(rec, N, order)
         results.append(from_record(rec, N, order))
         supports.append(supp)
+        if not direct:
+            vals = [float(a.v[0]) for a in args + args2]
+            try:
+                inside = in_domain_table(op, vals, float(par) if par is not None else None, k)
+            except (ValueError, OverflowError):
+                inside = False
+            if not inside:
+                cov["skipped:outside-domain-table:" + op] += 1
+                glob_ok = False
+                gres.append(None)
+                continue
         # ---- local check
         try:
             E = apply_op(T_, op, args, args2, par, k, shape)
@@ -848,7 +939,7 @@ def judge_program(ev, out):
             gres.append(None)
             continue
         factor = 4 if op in COMPOSITE else 1
-        bad, judged, skipped, worst = compare(obs, exp, factor, None if direct else supp)
+        bad, judged, skipped, worst = compare(obs, exp, factor, None if direct else supp, None, EPS_T[T_] if op in COMPOSITE else None)
         out["evals"] += 1
         cov["local-slots-judged"] += judged
         cov["local-slots-skipped"] += skipped
@@ -890,7 +981,7 @@ def judge_program(ev, out):
                     cov["global-skipped:nan-convention"] += 1
                 else:
                     obs = slot_items(stmts[-1]["res"], N, order)
-                    bad, judged, skipped, worst = compare(obs, expected_items(E), 4, supports[-1], ILL[T_])
+                    bad, judged, skipped, worst = compare(obs, expected_items(E), 4, supports[-1], ILL[T_], EPS_T[T_])
                     cov["global-programs-judged"] += 1
                     cov["global-slots-judged"] += judged
                     cov["global-slots-ill-conditioned"] += skipped
